@@ -113,6 +113,10 @@ def obligations(tier, seed):
                unwindset={"init_crc16_table.0": 257, "init_crc16_table.1": 257, "idl_feed.0": 257, "h_idl_crc_table.0": 257, "h_idl_crc_table.1": 257})
     pfc = dict(harness="h_c15_pfc.c", units=U)
     KN = {"KNOWN_IDL_FLAGS": None, "KNOWN_IDL_IMPLICIT_CI_RUN": None}
+    # vbi_unham16p / idl_a_demux_feed shift the (negative) Hamming error code left: GNU C defined and on the runner's ignore list, but cbmc 6.11
+    # makes the failed check fatal and reports everything behind it as UNKNOWN (197 properties in idl_a_hamming) -> where undecodable Hamming
+    # bytes are part of the input space the shift check is off (no data dependent shift distance in these units)
+    NOSHL = ["--no-undefined-shift-check"]
     idl_assumes = ["sender reading of EN 300 708 6.5 as in the library comments: SPA nibbles least significant first; a 0x00/0xFF run starts with a "
                    "transmitted CI and continues in the user data; a dummy byte 0xAA follows the 8th equal byte if the data area has room; DL counts "
                    "dummy bytes; implicit CI = residue with both bytes equal to CI",
@@ -145,29 +149,31 @@ def obligations(tier, seed):
            encodes=["vbi_idl_demux_feed", "idl_a_demux_feed", "_vbi_idl_demux_init", "vbi_unham8"], defines=KN, stubs=[CRC_STUB],
            assumes=idl_assumes, bounds="k = 2 (quick: 2 layouts; thorough: all 8 FT) and k = 3 (thorough, 3 layouts)",
            outside="flags argument (known defect); more than 3 packets",
-           grid=t2, quick_grid=q2, reach=["end", "all", "crcfail"], flags=["--slice-formula"], timeout=900, mem_gb=6, **idl),
-        Ob("idl_a_hamming", func="h_idl_a_hamming", desc="every Hamming 8/4 protected header byte (channel, designation, FT, IAL, each SPA nibble; position concrete, "
-           "value symbolic): within distance 1 of the sent code word -> corrected, same delivery; not decodable -> FALSE, nothing delivered, demux state untouched",
-           encodes=["vbi_idl_demux_feed", "idl_a_demux_feed", "vbi_unham8"], defines=KN, stubs=[CRC_STUB], assumes=idl_assumes,
-           bounds="1 packet per position; (FT, SPALEN): quick (12,2); thorough 9 more",
-           grid=[dict(FT=ft, SPALEN=sp, DEP=d) for (ft, sp, d) in [(12, 2, 0), (6, 6, 1), (0, 0, 1), (2, 1, 0), (4, 3, 0), (8, 4, 1), (10, 5, 0), (14, 6, 1), (14, 0, 0), (4, 6, 1)]],
-           quick_grid=[dict(FT=12, SPALEN=2, DEP=0)],
-           reach=["end", "refused", "corrected"], flags=["--slice-formula"], timeout=900, mem_gb=6, **idl),
-        Ob("idl_a_repeat", func="h_idl_a_repeat", desc="repeat indicator: packet A sent twice (RI 0x80, 0x01) then B (RI 0x00), every transmission independently clean / "
-           "corrupted in the protected part / not received: A delivered exactly once if its first copy is clean or (first corrupted and repeat clean), never twice, never without "
-           "a clean copy; B iff clean; bytes exact",
-           encodes=["vbi_idl_demux_feed", "idl_a_demux_feed"], defines=KN, stubs=[CRC_STUB], assumes=idl_assumes[:2],
-           bounds="3 transmissions; FT with RI: quick FT=6; thorough FT in {2,6,10,14}",
+           grid=t2, tier="thorough", reach=["end", "all", "crcfail"], flags=["--slice-formula"], timeout=1500, mem_gb=6, **idl),
+        Ob("idl_a_hamming", func="h_idl_a_hamming", desc="every Hamming 8/4 protected header byte in turn: channel, designation, SPA nibbles replaced by a symbolic value "
+           "(within distance 1 of the sent code word -> corrected, same delivery; not decodable -> FALSE, nothing delivered, demux state untouched); FT and IAL (layout "
+           "defining, concrete) with bit HBIT flipped (corrected) and bits HBIT, HBIT+3 flipped (refused)",
+           encodes=["vbi_idl_demux_feed", "idl_a_demux_feed", "vbi_unham8"], defines=KN, stubs=[CRC_STUB], assumes=idl_assumes[:1] + ["payload concrete except its first byte"],
+           bounds="1 packet per try; thorough only (337 s measured): 8 bit positions x 4 layouts",
+           grid=[dict(FT=ft, SPALEN=sp, DEP=d, HBIT=h) for h in range(8) for (ft, sp, d) in [(12, 2, 0), (6, 6, 1), (0, 0, 1), (10, 4, 0)]],
+           quick_grid=[dict(FT=12, SPALEN=2, DEP=0, HBIT=2)],
+           reach=["end", "refused", "corrected"], flags=["--slice-formula"] + NOSHL, tier="thorough", timeout=900, mem_gb=6, **idl),
+        Ob("idl_a_repeat", func="h_idl_a_repeat", desc="repeat indicator: packet A sent twice (RI 0x80, 0x01) then B (RI 0x00); every transmission clean / corrupted in the protected "
+           "part (symbolic place and mask) / not received (the 27 combinations on the grid): A delivered exactly once if its first copy is clean or (first corrupted and repeat "
+           "clean), never twice, never without a clean copy; B iff clean; bytes exact",
+           encodes=["vbi_idl_demux_feed", "idl_a_demux_feed"], defines=KN, stubs=[CRC_STUB], assumes=idl_assumes[:1] + ["payload concrete except its first byte"],
+           bounds="3 transmissions; quick: FT=6, combination damaged/damaged/clean; thorough: FT in {2,6,10,14} x 27 combinations",
            outside="RI bits 4-6; more than one repeat; a repeat whose first copy was never received is discarded by this demux (loss then flagged): accepted",
-           grid=[dict(FT=ft, SPALEN=sp, DEP=0) for (ft, sp) in [(6, 2), (2, 0), (10, 3), (14, 6)]], quick_grid=[dict(FT=6, SPALEN=2, DEP=0)],
-           reach=["end", "recovered", "lost"], flags=["--slice-formula"], timeout=900, mem_gb=6, **idl),
+           grid=[dict(FT=ft, SPALEN=sp, DEP=0, ST0=a, ST1=b, ST2=c) for (ft, sp) in [(6, 2), (2, 0), (10, 3), (14, 6)] for a in range(3) for b in range(3) for c in range(3)],
+           quick_grid=[dict(FT=6, SPALEN=2, DEP=0, ST0=1, ST1=1, ST2=0)],
+           reach=["end"], flags=["--slice-formula"], timeout=900, mem_gb=6, **idl),
         # ---- expected to be REFUTED on the current tree: genuine defects, see report ----
-        Ob("idl_a_flags_argument", func="h_idl_a_gap_flags", desc="DEFECT PROBE: three packets of ours with symbolic CI values, each optionally damaged in the check word: the flags "
+        Ob("idl_a_flags_argument", func="h_idl_a_gap_flags", desc="DEFECT PROBE: two packets of ours with symbolic CI values: the flags "
            "ARGUMENT of every callback equals (DATA_LOST iff a packet failed its check since the last delivery or CI is not the successor of the last delivered CI) | (DEPENDENT "
            "iff IAL bit 3); refuted: idl_demux.c:213 passes dx->flags (DATA_LOST already cleared, DEPENDENT never set) instead of the local flags",
            encodes=["idl_a_demux_feed"], stubs=[CRC_STUB], assumes=idl_assumes[:1] + ["payload concrete except its first byte"],
-           bounds="3 packets, FT=4 (CI), SPALEN=1, DEP=0 (so that only DATA_LOST can differ)", grid=[dict(FT=4, SPALEN=1, DEP=0)],
-           reach=["end", "lost_after_crc", "lost_after_gap"], flags=["--slice-formula"], timeout=600, mem_gb=4, **idl),
+           bounds="2 packets, FT=4 (CI), SPALEN=1, DEP=0 (so that only DATA_LOST can differ)", grid=[dict(FT=4, SPALEN=1, DEP=0, NGAP=2)],
+           reach=["end", "lost_after_gap"], flags=["--slice-formula"], timeout=600, mem_gb=4, **idl),
         Ob("idl_a_first_flags", func="h_idl_a_first_flags", desc="DEFECT PROBE: demux constructed on dirty memory (vbi_idl_a_demux_new = malloc + _vbi_idl_demux_init): the first "
            "delivery carries only documented flag bits and no DATA_LOST; refuted: dx->flags is never initialised",
            encodes=["_vbi_idl_demux_init", "vbi_idl_demux_reset", "idl_a_demux_feed"], stubs=[CRC_STUB], assumes=idl_assumes,
@@ -219,8 +225,6 @@ def obligations(tier, seed):
            bounds="one step; histories of any length by induction", unwind=43,
            unwindset={"_vbi_pfc_demux_decode.1": 19, "_vbi_pfc_demux_decode.0": 40, "c15_memcpy.0": 40, "c15_memcpy.1": 40},
            reach=["end", "unrelated", "delivered", "delivered2"], solver="cadical", timeout=1500, mem_gb=12, vin_size=2400,
-           # vbi_unham16p shifts the (negative) Hamming error code left: GNU C defined, ignored by the runner, but cbmc 6 treats the failed
-           # check as fatal and reports what lies behind it as UNKNOWN -> shift check off for this obligation (no data dependent shift distance in the unit)
-           noflags=["--undefined-shift-check"], **pfc),
+           flags=NOSHL, **pfc),
     ]
     return obs
